@@ -67,3 +67,209 @@ def fec_text(ctx):
     return ("#ifdef FEC_PLAIN\n#define FEC_ESTIMATE estimateRootTime_model\nReal estimateRootTime_model(Real, Real, Real, Real, Real, Real);\n"
             "#else\n#define FEC_ESTIMATE estimateRootTime\n#endif\n" + FEC_SIG + "\n" + plain + "\n"
             + "/* the same text with its loop in base/havoc/step form */\n" + FEC_SIG.replace("findEventCandidates(", "findEventCandidates__ind(") + "\n" + r.text + "\n")
+
+
+# ------------------------------------------------------------------------------------------------------------------
+# TimeStepperRep::stepTo
+# ------------------------------------------------------------------------------------------------------------------
+EVENT_H = os.path.join(REPO, "SimTKcommon/Simulation/include/SimTKcommon/internal/Event.h")
+STAGE_H = os.path.join(REPO, "SimTKcommon/Simulation/include/SimTKcommon/internal/Stage.h")
+
+
+def stage_value(name):
+    src = blank_comments(open(STAGE_H).read())
+    m = re.search(r"\b%s\s*=\s*(\d+)\s*," % name, src)
+    if not m:
+        raise ExtractionError("Stage::%s enumerator not found in Stage.h" % name)
+    return int(m.group(1))
+
+
+def cut_enum_renamed(ctx, path, anchor, label, cname, renames):
+    """cut `enum NAME {...}` verbatim, scope-flattening the listed enumerators (they would clash in C's single namespace)"""
+    c = cut_function(path, anchor, label)
+    r = Rewriter(c.text, label)
+    for old, new in renames:
+        r.sub("scope-flatten enumerator", r"\b%s\b" % old, new, 1)
+    r.sub("enum tag", anchor.strip().replace(r"\s*", ""), "enum " + cname, 1)
+    ctx.add_function(path, label, c.start, c.end, c.text, "M2 (verbatim enum)", [], r.log)
+    return r.text + ";\n"
+
+
+def _one(ctx, path, anchor, label, header, rules, occurrence=1):
+    c = cut_function(path, anchor, label, occurrence=occurrence)
+    r = Rewriter("{" + c.body + "}", label)
+    rules(r)
+    ctx.add_function(path, label, c.start, c.end, c.text, "M2", r.dropped, r.log)
+    return header + "\n" + r.text + "\n"
+
+
+def forwarders_text(ctx):
+    """the Integrator handle methods TimeStepperRep::stepTo uses: one-line forwards to the rep (rule: handle->rep forwarding)"""
+    out = []
+    def fwd0(r):
+        r.sub("handle->rep forwarding", r"\b(?:get|upd)Rep\(\)\.(\w+)\(\)", r"\1(self)", 1)
+    out.append(_one(ctx, INTEGREP_H, r"State& updAdvancedState\(\)\s*", "IntegratorRep::updAdvancedState", "static struct State* updAdvancedState(struct IntegratorRep* self)",
+                    lambda r: (r.sub("reference-return->pointer", r"(?<![\w.>&])advancedState\b", "&self->advancedState", 1))))
+    out.append(_one(ctx, INTEGRATOR_CPP, r"const State& Integrator::getState\(\) const\s*", "Integrator::getState", "static const struct State* Integrator_getState(const struct IntegratorRep* self)", fwd0))
+    out.append(_one(ctx, INTEGRATOR_CPP, r"const State& Integrator::getAdvancedState\(\) const\s*", "Integrator::getAdvancedState", "static const struct State* Integrator_getAdvancedState(const struct IntegratorRep* self)", fwd0))
+    out.append(_one(ctx, INTEGRATOR_CPP, r"State& Integrator::updAdvancedState\(\)\s*", "Integrator::updAdvancedState", "static struct State* Integrator_updAdvancedState(struct IntegratorRep* self)", fwd0))
+    out.append(_one(ctx, INTEGRATOR_CPP, r"bool Integrator::isSimulationOver\(\) const\s*", "Integrator::isSimulationOver", "static bool Integrator_isSimulationOver(const struct IntegratorRep* self)", fwd0))
+    def getTime(r):
+        r.sub("implicit this + State::getTime()->view field", r"\bgetState\(\)\.getTime\(\)", "Integrator_getState(self)->t", 1)
+    out.append(_one(ctx, INTEGRATOR_H, r"Real\s+getTime\(\) const\s*", "Integrator::getTime", "static Real Integrator_getTime(const struct IntegratorRep* self)", getTime))
+    out.append(_one(ctx, INTEGRATOR_CPP, r"Integrator::stepTo\(Real reportTime, Real advanceLimit\)\s*", "Integrator::stepTo",
+                    "static SuccessfulStepStatus Integrator_stepTo(struct IntegratorRep* self, Real reportTime, Real advanceLimit)",
+                    lambda r: r.lit("handle->rep forwarding (callee BY CONTRACT: C19)", "updRep().stepTo(", "AbstractIntegratorRep_stepTo(self, ", 1)))
+    out.append(_one(ctx, INTEGRATOR_CPP, r"void Integrator::reinitialize\(Stage g, bool shouldTerminate\)\s*", "Integrator::reinitialize",
+                    "static void Integrator_reinitialize(struct IntegratorRep* self, int g, bool shouldTerminate)",
+                    lambda r: r.lit("handle->rep forwarding (callee BY CONTRACT: C19)", "updRep().reinitialize(", "IntegratorRep_reinitialize(self, ", 1)))
+    def trig(r):
+        r.sub("handle->rep forwarding", r"\bgetRep\(\)\.getStepCommunicationStatus\(\)", "getStepCommunicationStatus(self)", 1)
+        r.sub("scope-flatten IntegratorRep::", r"\bIntegratorRep::", "", 1)
+        rewrite_call(r, "exception-plumbing: SimTK_THROW2 -> ghost flag", "SimTK_THROW2", lambda a: "{ ghost_threw = 1; return IDS_EMPTY; }", 1)
+        r.sub("handle->rep forwarding (payload -> list token)", r"\bgetRep\(\)\.getTriggeredEvents\(\)", "rep_getTriggeredEvents(self)", 1)
+    out.append(_one(ctx, INTEGRATOR_CPP, r"Integrator::getTriggeredEvents\(\) const\s*", "Integrator::getTriggeredEvents",
+                    "static EventIdList Integrator_getTriggeredEvents(const struct IntegratorRep* self)", trig))
+    return "\n".join(out)
+
+
+def results_text(ctx):
+    out = []
+    mem = lambda r: r.members(["m_exitStatus", "m_lowestModifiedStage"])
+    def valid(r):
+        r.sub("scope-flatten enumerator", r"\bInvalid\b", "Status_Invalid", 1); mem(r)
+    out.append(_one(ctx, EVENT_H, r"bool\s+isValid\(\)\s+const\s*", "HandleEventsResults::isValid", "static bool isValid(const struct HandleEventsResults* self)", valid, occurrence=2))
+    out.append(_one(ctx, EVENT_H, r"Status\s+getExitStatus\(\)\s+const\s*", "HandleEventsResults::getExitStatus", "static int getExitStatus(const struct HandleEventsResults* self)", mem))
+    def low(r):
+        this_calls(r, ["isValid"]); mem(r)
+    out.append(_one(ctx, EVENT_H, r"Stage getLowestModifiedStage\(\) const\s*", "HandleEventsResults::getLowestModifiedStage", "static int getLowestModifiedStage(const struct HandleEventsResults* self)", low))
+    return "\n".join(out)
+
+
+def timestepper_text(ctx):
+    c = cut_function(TIMESTEPPER_CPP, r"Integrator::SuccessfulStepStatus TimeStepperRep::stepTo\(Real time\)\s*", "TimeStepperRep::stepTo", expect_total=1)
+    r = Rewriter("{" + c.body + "}", "TimeStepperRep::stepTo")
+    D, S = r.drop, r.sub
+    D("payload: handler options object", r"HandleEventsOptions handleOpts\(integ->getConstraintToleranceInUse\(\)\);")
+    D("payload: handler options object", r"if \(integ->isInfinityNormInUse\(\)\)\s*handleOpts\.setOption\(HandleEventsOptions::UseInfinityNorm\);")
+    S("container payload -> list tokens", r"Array_<EventId> scheduledEventIds, scheduledReportIds;", "EventIdList scheduledEventIds = IDS_EMPTY, scheduledReportIds = IDS_EMPTY;", 1)
+    S("container payload -> list token (empty temporary)", r"Array_<EventId>\(\)", "IDS_EMPTY", 2)
+    # the two integrator calls that are under the C19 contracts: through the ghost shims (which call the cut forwarders)
+    rewrite_call(r, "handle call -> ghost shim around the cut forwarder Integrator::stepTo (callee BY CONTRACT: C19)", "integ->stepTo", lambda a: "TS_stepTo(self, %s, %s)" % (a[0], a[1]), 1)
+    rewrite_call(r, "handle call -> ghost shim around the cut forwarder Integrator::reinitialize (callee BY CONTRACT: C19)", "integ->reinitialize", lambda a: "TS_reinitialize(self, %s, %s)" % (a[0], a[1]), 1)
+    S("handle method -> cut forwarder", r"\binteg->(isSimulationOver|getTime|getState|getAdvancedState|updAdvancedState|getTriggeredEvents)\(\)", r"Integrator_\1(self->integ)", None, 10)
+    # system entry points by contract
+    rewrite_call(r, "opaque statement: system.realize", "system.realize", lambda a: "sys_realize(self, %s, %s)" % (a[0], a[1]), 2)
+    rewrite_call(r, "callee by contract: system.calcTimeOfNextScheduledEvent (references -> pointers)", "system.calcTimeOfNextScheduledEvent",
+                 lambda a: "sys_calcTimeOfNextScheduledEvent(self, %s, &%s, &%s, %s)" % tuple(a), 1)
+    rewrite_call(r, "callee by contract: system.calcTimeOfNextScheduledReport (references -> pointers)", "system.calcTimeOfNextScheduledReport",
+                 lambda a: "sys_calcTimeOfNextScheduledReport(self, %s, &%s, &%s, %s)" % tuple(a), 1)
+    rewrite_call(r, "callee by contract: system.reportEvents", "system.reportEvents", lambda a: "sys_reportEvents(self, %s, %s, %s)" % tuple(a), 1)
+    def he(a):
+        if len(a) != 5 or a[3].strip() != "handleOpts" or a[4].strip() != "results":
+            raise ExtractionError("system.handleEvents call with unexpected arguments %r" % (a,))
+        return "sys_handleEvents(self, %s, %s, %s, &results)" % (a[0], a[1], a[2])
+    rewrite_call(r, "callee by contract: system.handleEvents (options payload dropped, reference -> pointer)", "system.handleEvents", he, 4)
+    S("results object -> view struct", r"\bHandleEventsResults results;", "struct HandleEventsResults results;", 4)
+    S("method call -> cut accessor", r"\bresults\.(getLowestModifiedStage|getExitStatus)\(\)", r"\1(&results)", 8)
+    S("scope-flatten HandleEventsResults::", r"\bHandleEventsResults::ShouldTerminate\b", "ShouldTerminate", 4)
+    S("scope-flatten Event::Cause::", r"\bEvent::Cause::", "", 5)
+    S("scope-flatten Integrator::", r"\bIntegrator::", "", None, 9)
+    S("scope-flatten Stage::", r"\bStage::(Time|Report)\b", r"Stage_\1", 3)
+    S("Stage -> int (view)", r"\bStage lowestModified\b", "int lowestModified", 1)
+    S("std::min", r"\bstd::min\(", "vf_min(", None, 1)
+    literal_not(r, 1)
+    r.members(["lastEventTime", "lastReportTime", "reportAllSignificantStates"])
+    r.splice_loop("loop-contract:TimeStepperRep::stepTo#loop1 (main loop; cut at integ->stepTo by contract)", r"\bwhile\s*\(!Integrator_isSimulationOver\(self->integ\)\)",
+                  "  __CPROVER_assigns(TS_ASSIGNS(self), scheduledEventIds, scheduledReportIds)\n  __CPROVER_loop_invariant(TS_INV(self, time))", 1)
+    ctx.add_function(TIMESTEPPER_CPP, "TimeStepperRep::stepTo", c.start, c.end, c.text, "M2", r.dropped, r.log)
+    return "SuccessfulStepStatus TimeStepperRep_stepTo(struct TimeStepperRep* self, Real time)\n" + r.text + "\n"
+
+
+def build_ts_unit(ctx, head_parts):
+    """head_parts: the C19 head (pre.h, enums, accessors), shared with the localisation unit"""
+    spec19 = os.path.join(VERIF, "specs", "C19")
+    parts = list(head_parts)
+    parts.append("enum { Stage_Time = %d };\n" % stage_value("Time"))
+    parts.append('#include "%s/contracts.h"\n' % spec19)
+    parts.append(cut_enum_renamed(ctx, EVENT_H, r"enum Num\s*", "Event::Cause::Num", "CauseNum", [("Invalid", "Cause_Invalid")]))
+    parts.append(cut_enum_renamed(ctx, EVENT_H, r"enum Status\s*", "HandleEventsResults::Status", "HandleEventsStatus", [("Invalid", "Status_Invalid")]))
+    parts.append('#include "%s/ts_pre.h"\n' % SPEC)
+    parts.append(forwarders_text(ctx))
+    parts.append(results_text(ctx))
+    parts.append('#include "%s/ts_contracts.h"\n' % SPEC)
+    parts.append(timestepper_text(ctx))
+    parts.append('#include "%s/ts_harness.h"\n' % SPEC)
+    path = os.path.join(ctx.out, "ts_unit.c")
+    open(path, "w").write("\n".join(parts))
+    return path
+
+
+class _QuietCtx:
+    """lets a builder of another check (C19) run without registering its functions a second time in this check's evidence"""
+    def __init__(self, ctx, keep=()):
+        self.out, self._ctx, self._keep = ctx.out, ctx, keep
+    def add_function(self, path, name, *a, **k):
+        if name in self._keep:
+            self._ctx.add_function(path, name, *a, **k)
+
+
+def build_supplement_unit(ctx, c19mod):
+    """C19's stepTo unit (real body of AbstractIntegratorRep::stepTo, cut by checks/c19.py on this run) + a forwarding wrapper that
+    carries the two supplementary clauses of specs/C22/stepto_supplement.h"""
+    base = c19mod.build_unit(_QuietCtx(ctx, keep=("AbstractIntegratorRep::stepTo",)))
+    text = open(base).read()
+    text += ('\n#include "%s/stepto_supplement.h"\n' % SPEC
+             + "SuccessfulStepStatus stepTo_supplement_proof(struct IntegratorRep* self, Real reportTime, Real scheduledEventTime)\n"
+               "__CPROVER_requires(__CPROVER_is_fresh(self, sizeof(*self)))\n"
+               "__CPROVER_requires(STEPTO_PRE(self, reportTime, scheduledEventTime))\n"
+               "__CPROVER_assigns(STEPTO_ASSIGNS)\n"
+               "__CPROVER_ensures(STEPTO_SUPPLEMENT(__CPROVER_return_value, reportTime, scheduledEventTime))\n;\n"
+               "SuccessfulStepStatus stepTo_supplement_proof(struct IntegratorRep* self, Real reportTime, Real scheduledEventTime)\n"
+               "{ return AbstractIntegratorRep_stepTo(self, reportTime, scheduledEventTime); }\n"
+               "int nondet_int(void);\n"
+               "void h_stepTo_supplement(void) { struct IntegratorRep* s; Real r, e; ghost_threw = nondet_int(); stepTo_supplement_proof(s, r, e); }\n")
+    path = os.path.join(ctx.out, "stepto_supplement_unit.c")
+    open(path, "w").write(text)
+    return path
+
+
+# ------------------------------------------------------------------------------------------------------------------
+# System::Guts::calcTimeOfNextScheduledEventImpl / calcTimeOfNextScheduledReportImpl
+# ------------------------------------------------------------------------------------------------------------------
+SYSTEM_CPP = os.path.join(REPO, "SimTKcommon/Simulation/src/System.cpp")
+
+
+def sched_text(ctx, which):
+    """which: 'Event' | 'Report'"""
+    nm = "System::Guts::calcTimeOfNextScheduled%sImpl" % which
+    c = cut_function(SYSTEM_CPP, r"int System::Guts::calcTimeOfNextScheduled%sImpl\s*\(const State& s, Real& tNextEvent, Array_<EventId>& eventIds,\s*bool includeCurrentTime\) const\s*" % which, nm, expect_total=1)
+    r = Rewriter("{" + c.body + "}", nm)
+    S = r.sub
+    S("references -> pointers", r"(?<![\w.>*])tNextEvent\b", "(*tNextEvent)", 4)
+    S("container->stub: clear()", r"\b(eventIds|ids)\.clear\(\);", r"eid_clear(\1);", 3)
+    S("local container -> sequence over the harness's backing store", r"Array_<EventId> ids;", "struct EidSeq* ids = &sch_ids_storage;", 1)
+    S("index type -> int", r"\bSubsystemIndex sx\(0\)", "int sx = 0", 1)
+    S("implicit this (stub)", r"(?<![\w.>])getNumSubsystems\(\)", "getNumSubsystems(self)", 1)
+    r.drop("payload: subsystem lookup (the call below names the subsystem by its index)", r"const Subsystem::Guts& sub = getRep\(\)\.subsystems\[sx\]\.getSubsystemGuts\(\);")
+    rewrite_call(r, "callee by contract: per-subsystem next scheduled time (references -> pointers)", "sub.calcTimeOfNextScheduled%s" % which,
+                 lambda a: "sub_calcTimeOfNext(self, sx, &%s, %s, %s)" % (a[1], a[2], a[3]), 1)
+    S("container->stub: size()", r"\bids\.size\(\)", "eid_size(ids)", 1)
+    S("container->stub: push_back + operator[] (+ ghost hook: assigns ghost variables only)", r"\beventIds\.push_back\(ids\[i\]\);", "{ eid_push(eventIds, eid_at(ids, i)); SCH_PUSH_HOOK(sx, i) }", 1)
+    # ghost hook at the end of the outer loop body, located by brace matching
+    splice_body_hooks(r, "ghost hook at the end of the outer loop body (assigns ghost variables only)", r"\bfor\s*\(int sx = 0;", "", "SCH_OUTER_END(sx)")
+    loop_to_induction(r, "loop-contract:%s#loop2 (inner; base/havoc/step form; invariant SCH_INNER_INV)" % nm, r"\bfor\s*\(int i = 0;", "SCHIN", "")
+    loop_to_induction(r, "loop-contract:%s#loop1 (outer; base/havoc/step form; invariant SCH_OUTER_INV)" % nm, r"\bfor\s*\(int sx = 0;", "SCHOUT", "")
+    ctx.add_function(SYSTEM_CPP, nm, c.start, c.end, c.text, "M2", r.dropped, r.log)
+    return ("int calcTimeOfNextScheduled%sImpl__ind(const struct SystemGuts* self, const struct State* s, Real* tNextEvent, struct EidSeq* eventIds, bool includeCurrentTime)\n" % which
+            + r.text + "\n")
+
+
+def build_sched_unit(ctx):
+    parts = ['#include "%s/pre.h"\n' % os.path.join(VERIF, "specs", "C19"), '#include "%s/sched_contracts.h"\n' % SPEC]
+    parts.append(sched_text(ctx, "Event"))
+    parts.append(sched_text(ctx, "Report"))
+    parts.append('#include "%s/sched_harness.h"\n' % SPEC)
+    path = os.path.join(ctx.out, "sched_unit.c")
+    open(path, "w").write("\n".join(parts))
+    return path
